@@ -92,6 +92,9 @@ static vnacal_new_parameter_t *hash_lookup(
 {
     vnacal_new_parameter_t *vnprp;
 
+    if (parameter < 0) {
+	return NULL;
+    }
     vnprp = vnphp->vnph_table[parameter % vnphp->vnph_allocation];
     for (; vnprp != NULL; vnprp = vnprp->vnpr_hash_next) {
 	int index = VNACAL_GET_PARAMETER_INDEX(vnprp->vnpr_parameter);
